@@ -1,19 +1,33 @@
-(* Model of ui.components.ProgressBar on a non-section output (C16).  Time is an integer number of
-   milliseconds (the harness runs the implementation on a virtual clock that only moves between calls);
-   the minimum redraw interval is the exact rational value of the Python float. *)
-From Clikit Require Import Base.Prelude Base.Res Base.Term Model.Conv.
+(* Model of ui.components.ProgressBar (C16) on the error output of an IO (ANSI / plain / quiet) or on a SectionOutput
+   with a second section below it.  Time is an integer number of milliseconds (the harness runs the implementation on
+   a virtual clock that only moves between calls); the minimum and maximum redraw intervals are the exact rational
+   values of the Python floats.
+   The frame is MARKUP (a message may carry tags): it is measured by its visible length (remove_format), it reaches
+   the stream through the formatter of the output (Model/Markup.v: SGR sequences on a decorated output, tag-stripped
+   on a plain one), the calls on the formatter are threaded in the order of the real calls.  On a section the frame
+   goes through SectionOutput.clear / write (Model/Section.v).  Exceptions are values: %estimated% / %remaining%
+   without a maximum (RuntimeError, Other 9), a text the formatter refuses. *)
+From Clikit Require Import Base.Prelude Base.Res Base.Term Model.Conv Model.Markup Model.Section.
+From Clikit Require Model.OutputM.
 
 Inductive spec := SNone | SRight (n : nat) | SLeft (n : nat).         (* %x%, %x:3s%, %x:-6s% *)
 Inductive piece :=
-| PLit (s : str) | PCurrent | PMax | PBar | PPercent (sp : spec) | PElapsed (sp : spec) | PEstimated (sp : spec) | PMessage.
+| PLit (s : str) | PCurrent | PMax | PBar | PPercent (sp : spec) | PElapsed (sp : spec) | PEstimated (sp : spec) | PMessage
+| PRemaining (sp : spec).
 Definition format := list piece.
 
 Record pbar := {
   p_ansi : bool;                 (* io.supports_ansi(): _should_overwrite *)
   p_quiet : bool;
+  p_section : bool;              (* isinstance(self._io, SectionOutput): the bar's section is section 0 of p_secs *)
+  p_w : nat;                     (* Terminal().width *)
+  p_f : formatter;               (* the formatter of the output (shared by the sections) *)
+  p_secs : secs;                 (* the sections of the output, creation order *)
   p_verbosity : Z;
   p_max : Z; p_step : Z; p_step_width : nat;
+  p_pct_n : Z; p_pct_d : Z;     (* _percent (get_progress_percent) as the fraction it was computed from; 0/1 = 0.0 *)
   p_bar_width : Z;
+  p_pchar : str;                 (* progress_char (markup: measured by its visible length) *)
   p_custom : option format;      (* set_format *)
   p_fmt : option format;         (* the format actually used, fixed at the first display/clear *)
   p_flc : nat;                   (* _format_line_count *)
@@ -21,10 +35,74 @@ Record pbar := {
   p_write_count : Z;
   p_start : Z; p_last_write : Z;
   p_min_num : Z; p_min_den : Z;  (* _min_seconds_between_redraws as an exact fraction of a second *)
-  p_max_ms : Z;                  (* _max_seconds_between_redraws *)
+  p_maxs_num : Z; p_maxs_den : Z; (* _max_seconds_between_redraws, likewise *)
   p_redraw_freq : option Z;
-  p_message : option str
+  p_message : option str;
+  p_drawn : option (Z * Z)      (* _last_drawn: step and maximum of the last frame display() wrote *)
 }.
+
+(* ---- field updates ---- *)
+Definition set_steps (p : pbar) (mx step : Z) (sw : nat) : pbar :=
+  {| p_ansi := p_ansi p; p_quiet := p_quiet p; p_section := p_section p; p_w := p_w p; p_f := p_f p; p_secs := p_secs p;
+     p_verbosity := p_verbosity p; p_max := mx; p_step := step; p_step_width := sw; p_pct_n := p_pct_n p; p_pct_d := p_pct_d p;
+     p_bar_width := p_bar_width p; p_pchar := p_pchar p; p_custom := p_custom p; p_fmt := p_fmt p; p_flc := p_flc p; p_last_len := p_last_len p;
+     p_write_count := p_write_count p; p_start := p_start p; p_last_write := p_last_write p;
+     p_min_num := p_min_num p; p_min_den := p_min_den p; p_maxs_num := p_maxs_num p; p_maxs_den := p_maxs_den p;
+     p_redraw_freq := p_redraw_freq p; p_message := p_message p; p_drawn := p_drawn p |}.
+Definition set_fmt (p : pbar) (f : option format) (flc : nat) : pbar :=
+  {| p_ansi := p_ansi p; p_quiet := p_quiet p; p_section := p_section p; p_w := p_w p; p_f := p_f p; p_secs := p_secs p;
+     p_verbosity := p_verbosity p; p_max := p_max p; p_step := p_step p; p_step_width := p_step_width p; p_pct_n := p_pct_n p; p_pct_d := p_pct_d p;
+     p_bar_width := p_bar_width p; p_pchar := p_pchar p; p_custom := p_custom p; p_fmt := f; p_flc := flc; p_last_len := p_last_len p;
+     p_write_count := p_write_count p; p_start := p_start p; p_last_write := p_last_write p;
+     p_min_num := p_min_num p; p_min_den := p_min_den p; p_maxs_num := p_maxs_num p; p_maxs_den := p_maxs_den p;
+     p_redraw_freq := p_redraw_freq p; p_message := p_message p; p_drawn := p_drawn p |}.
+Definition set_written (p : pbar) (last_len : nat) (now : Z) : pbar :=
+  {| p_ansi := p_ansi p; p_quiet := p_quiet p; p_section := p_section p; p_w := p_w p; p_f := p_f p; p_secs := p_secs p;
+     p_verbosity := p_verbosity p; p_max := p_max p; p_step := p_step p; p_step_width := p_step_width p; p_pct_n := p_pct_n p; p_pct_d := p_pct_d p;
+     p_bar_width := p_bar_width p; p_pchar := p_pchar p; p_custom := p_custom p; p_fmt := p_fmt p; p_flc := p_flc p; p_last_len := last_len;
+     p_write_count := (p_write_count p + 1)%Z; p_start := p_start p; p_last_write := now;
+     p_min_num := p_min_num p; p_min_den := p_min_den p; p_maxs_num := p_maxs_num p; p_maxs_den := p_maxs_den p;
+     p_redraw_freq := p_redraw_freq p; p_message := p_message p; p_drawn := p_drawn p |}.
+Definition set_start (p : pbar) (t : Z) : pbar :=
+  {| p_ansi := p_ansi p; p_quiet := p_quiet p; p_section := p_section p; p_w := p_w p; p_f := p_f p; p_secs := p_secs p;
+     p_verbosity := p_verbosity p; p_max := p_max p; p_step := p_step p; p_step_width := p_step_width p; p_pct_n := p_pct_n p; p_pct_d := p_pct_d p;
+     p_bar_width := p_bar_width p; p_pchar := p_pchar p; p_custom := p_custom p; p_fmt := p_fmt p; p_flc := p_flc p; p_last_len := p_last_len p;
+     p_write_count := p_write_count p; p_start := t; p_last_write := p_last_write p;
+     p_min_num := p_min_num p; p_min_den := p_min_den p; p_maxs_num := p_maxs_num p; p_maxs_den := p_maxs_den p;
+     p_redraw_freq := p_redraw_freq p; p_message := p_message p; p_drawn := p_drawn p |}.
+Definition set_message (p : pbar) (m : option str) : pbar :=
+  {| p_ansi := p_ansi p; p_quiet := p_quiet p; p_section := p_section p; p_w := p_w p; p_f := p_f p; p_secs := p_secs p;
+     p_verbosity := p_verbosity p; p_max := p_max p; p_step := p_step p; p_step_width := p_step_width p; p_pct_n := p_pct_n p; p_pct_d := p_pct_d p;
+     p_bar_width := p_bar_width p; p_pchar := p_pchar p; p_custom := p_custom p; p_fmt := p_fmt p; p_flc := p_flc p; p_last_len := p_last_len p;
+     p_write_count := p_write_count p; p_start := p_start p; p_last_write := p_last_write p;
+     p_min_num := p_min_num p; p_min_den := p_min_den p; p_maxs_num := p_maxs_num p; p_maxs_den := p_maxs_den p;
+     p_redraw_freq := p_redraw_freq p; p_message := m; p_drawn := p_drawn p |}.
+(* the state of the output: the formatter's style stack, the sections *)
+Definition set_out (p : pbar) (f : formatter) (st : secs) : pbar :=
+  {| p_ansi := p_ansi p; p_quiet := p_quiet p; p_section := p_section p; p_w := p_w p; p_f := f; p_secs := st;
+     p_verbosity := p_verbosity p; p_max := p_max p; p_step := p_step p; p_step_width := p_step_width p; p_pct_n := p_pct_n p; p_pct_d := p_pct_d p;
+     p_bar_width := p_bar_width p; p_pchar := p_pchar p; p_custom := p_custom p; p_fmt := p_fmt p; p_flc := p_flc p; p_last_len := p_last_len p;
+     p_write_count := p_write_count p; p_start := p_start p; p_last_write := p_last_write p;
+     p_min_num := p_min_num p; p_min_den := p_min_den p; p_maxs_num := p_maxs_num p; p_maxs_den := p_maxs_den p;
+     p_redraw_freq := p_redraw_freq p; p_message := p_message p; p_drawn := p_drawn p |}.
+
+(* self._percent = step / max (0.0 without a maximum) *)
+Definition set_pct (p : pbar) (n d : Z) : pbar :=
+  {| p_ansi := p_ansi p; p_quiet := p_quiet p; p_section := p_section p; p_w := p_w p; p_f := p_f p; p_secs := p_secs p;
+     p_verbosity := p_verbosity p; p_max := p_max p; p_step := p_step p; p_step_width := p_step_width p; p_pct_n := n; p_pct_d := d;
+     p_bar_width := p_bar_width p; p_pchar := p_pchar p; p_custom := p_custom p; p_fmt := p_fmt p; p_flc := p_flc p; p_last_len := p_last_len p;
+     p_write_count := p_write_count p; p_start := p_start p; p_last_write := p_last_write p;
+     p_min_num := p_min_num p; p_min_den := p_min_den p; p_maxs_num := p_maxs_num p; p_maxs_den := p_maxs_den p;
+     p_redraw_freq := p_redraw_freq p; p_message := p_message p; p_drawn := p_drawn p |}.
+
+Definition set_drawn (p : pbar) (d : option (Z * Z)) : pbar :=
+  {| p_ansi := p_ansi p; p_quiet := p_quiet p; p_section := p_section p; p_w := p_w p; p_f := p_f p; p_secs := p_secs p;
+     p_verbosity := p_verbosity p; p_max := p_max p; p_step := p_step p; p_step_width := p_step_width p;
+     p_pct_n := p_pct_n p; p_pct_d := p_pct_d p;
+     p_bar_width := p_bar_width p; p_pchar := p_pchar p; p_custom := p_custom p; p_fmt := p_fmt p; p_flc := p_flc p; p_last_len := p_last_len p;
+     p_write_count := p_write_count p; p_start := p_start p; p_last_write := p_last_write p;
+     p_min_num := p_min_num p; p_min_den := p_min_den p; p_maxs_num := p_maxs_num p; p_maxs_den := p_maxs_den p;
+     p_redraw_freq := p_redraw_freq p; p_message := p_message p; p_drawn := d |}.
 
 Definition sp (c : N) (n : nat) : str := repeat c n.
 Definition SPACE : N := 32.
@@ -34,7 +112,6 @@ Definition just (s : spec) (t : str) : str :=
   | SRight n => sp SPACE (n - length t) ++ t
   | SLeft n => t ++ sp SPACE (n - length t)
   end.
-Definition tx (l : list N) : str := l.
 
 (* the built-in formats *)
 Definition fmt_normal : format :=
@@ -50,7 +127,6 @@ Definition best_format (verbosity : Z) (has_max : bool) : format :=
 
 (* utils.time.format_time on a duration in milliseconds *)
 Definition ceil_div (a b : Z) : Z := (- ((- a) / b))%Z.
-Definition s_of (l : list N) : str := l.
 Definition format_time (ms : Z) : str :=
   let secs_le k := (ms <=? k * 1000)%Z in
   if secs_le 0%Z then [60;32;49;32;115;101;99]%N                                   (* "< 1 sec" *)
@@ -69,104 +145,162 @@ Definition round_half_even (a b : Z) : Z :=
   let q := (a / b)%Z in let r := (a mod b)%Z in
   if (2 * r <? b)%Z then q else if (b <? 2 * r)%Z then (q + 1)%Z else (if Z.even q then q else q + 1)%Z.
 
+(* ---- the one piece of float arithmetic of the bar: min(5, width / 15) * write_count on a bar without maximum ----
+   dbl_round n d: the IEEE double nearest to n / d (n, d > 0; nearest, ties to even, 53-bit significand, normal range)
+   as the pair (m, e) standing for m * 2^e *)
+Definition pow2 (k : Z) : Z := Z.pow 2 k.
+Definition dbl_round (n d : Z) : Z * Z :=
+  if (n <=? 0)%Z then (0, 0)%Z else
+  let l := (Z.log2 n - Z.log2 d)%Z in
+  let scaled e := if (e <? 0)%Z then (n * pow2 (- e), d)%Z else (n, d * pow2 e)%Z in
+  let e0 := (l - 52)%Z in
+  let e := if (fst (scaled e0) <? pow2 52 * snd (scaled e0))%Z then (e0 - 1)%Z else e0 in
+  (round_half_even (fst (scaled e)) (snd (scaled e)), e).
+(* floor(((width / 15) * write_count) % width) in doubles: the quotient is rounded, the product is rounded, the
+   remainder of doubles is exact *)
+Definition nomax_offset (bw wc : Z) : Z :=
+  if (75 <=? bw)%Z then ((5 * wc) mod bw)%Z                    (* min(5, width / 15) is the integer 5 *)
+  else
+    let q := dbl_round bw 15 in
+    let pr := dbl_round (fst q * wc) 1 in
+    let m := fst pr in let e := (snd pr + snd q)%Z in
+    if (e <? 0)%Z then ((m mod (bw * pow2 (- e))) / pow2 (- e))%Z else ((m * pow2 e) mod bw)%Z.
+
 Definition bar_offset (p : pbar) : Z :=
   if (0 <? p_max p)%Z then (p_step p * p_bar_width p / p_max p)%Z
   else match p_redraw_freq p with
        | Some _ => (p_step p mod p_bar_width p)%Z
-       | None =>   (* floor((min(5, width / 15) * write_count) % width), exact *)
-         let num := (if (75 <=? p_bar_width p)%Z then 75 else p_bar_width p)%Z in      (* min(5, w/15) = num/15 *)
-         (((num * p_write_count p) mod (15 * p_bar_width p)) / 15)%Z
+       | None => nomax_offset (p_bar_width p) (p_write_count p)
        end.
-Definition render_bar (p : pbar) : str :=
+(* _formatter_bar: complete cells, then - unless the bar is full - the progress character and the empty cells that are
+   left beside its `pclen` VISIBLE cells *)
+Definition bar_full (p : pbar) : bool := negb (bar_offset p <? p_bar_width p)%Z.
+Definition render_bar_with (p : pbar) (pc : str) (pclen : nat) : str :=
   let c := bar_offset p in
   let bar_char := if (0 <? p_max p)%Z then 61%N else 45%N in
   sp bar_char (Z.to_nat c) ++
-  (if (c <? p_bar_width p)%Z then 62%N :: sp 45%N (Z.to_nat (p_bar_width p - c - 1)) else []).
+  (if bar_full p then [] else pc ++ sp 45%N (Z.to_nat (p_bar_width p - c - Z.of_nat pclen))).
+Definition GT1 : str := [62%N].                                   (* the default progress character ">" *)
+Definition render_bar (p : pbar) : str := render_bar_with p GT1 1.
 
-Definition render_piece (p : pbar) (now : Z) (x : piece) : str :=
+Definition percent_of (p : pbar) : Z := if (0 <? p_max p)%Z then (p_step p * 100 / p_max p)%Z else 0%Z.
+Definition no_max : ekind := Other 9.       (* RuntimeError: no maximum set *)
+(* one placeholder; %bar% asks the formatter for the visible length of the progress character (unless the bar is full) *)
+Definition render_piece (p : pbar) (now : Z) (fm : formatter) (x : piece) : res (formatter * str) :=
   match x with
-  | PLit s => s
-  | PCurrent => just (SRight (p_step_width p)) (dec_text (p_step p))
-  | PMax => dec_text (p_max p)
-  | PBar => render_bar p
-  | PPercent s => just s (dec_text (if (0 <? p_max p)%Z then (p_step p * 100 / p_max p)%Z else 0%Z))
-  | PElapsed s => just s (format_time (now - p_start p))
+  | PLit s => Ok (fm, s)
+  | PCurrent => Ok (fm, just (SRight (p_step_width p)) (dec_text (p_step p)))
+  | PMax => Ok (fm, dec_text (p_max p))
+  | PBar =>
+    if bar_full p then Ok (fm, render_bar_with p [] 0)
+    else do x <- remove_format fm (p_pchar p); Ok (fst x, render_bar_with p (p_pchar p) (length (snd x)))
+  | PPercent s => Ok (fm, just s (dec_text (percent_of p)))
+  | PElapsed s => Ok (fm, just s (format_time (now - p_start p)))
   | PEstimated s =>
-    just s (dec_text (if (p_step p =? 0)%Z then 0%Z
-                      else round_half_even ((now - p_start p) * p_max p) (1000 * p_step p)))
-  | PMessage => match p_message p with Some m => m | None => [37;109;101;115;115;97;103;101;37]%N end
+    if (p_max p =? 0)%Z then Err no_max else
+    Ok (fm, just s (dec_text (if (p_step p =? 0)%Z then 0%Z
+                              else round_half_even ((now - p_start p) * p_max p) (1000 * p_step p))))
+  | PRemaining s =>
+    (* the code computes elapsed / step * (max - max), i.e. always 0 seconds (Symfony's original has max - step); the time
+       placeholders are outside the clauses of C16, the model follows the code as it is *)
+    if (p_max p =? 0)%Z then Err no_max else
+    Ok (fm, just s (format_time (1000 * (if (p_step p =? 0)%Z then 0%Z
+                                         else round_half_even ((now - p_start p) * (p_max p - p_max p)) (1000 * p_step p)))))
+  | PMessage => Ok (fm, match p_message p with Some m => m | None => [37;109;101;115;115;97;103;101;37]%N end)
   end.
-Definition render_frame (p : pbar) (now : Z) (f : format) : str := flat_map (render_piece p now) f.
+(* the placeholders are replaced from left to right *)
+Fixpoint render_frame (p : pbar) (now : Z) (fm : formatter) (f : format) : res (formatter * str) :=
+  match f with
+  | [] => Ok (fm, [])
+  | x :: r => do a <- render_piece p now fm x; do b <- render_frame p now (fst a) r; Ok (fst b, snd a ++ snd b)
+  end.
 
-Fixpoint split_nl (s : str) : list str :=
-  match s with
-  | [] => [[]]
-  | c :: r => if N.eqb c LF then [] :: split_nl r
-              else match split_nl r with l :: ls => (c :: l) :: ls | [] => [[c]] end
-  end.
-Fixpoint join_nl (ls : list str) : str :=
-  match ls with [] => [] | [l] => l | l :: r => l ++ LF :: join_nl r end.
 Definition count_nl (s : str) : nat := length (filter (N.eqb LF) s).
 
 Definition decimal_width (z : Z) : nat := length (dec_text z).
+Definition with_progress (p : pbar) (mx step : Z) : pbar := set_steps p mx step (p_step_width p).
 Definition set_max_steps (p : pbar) (mx : Z) : pbar :=
-  let m := Z.max 0 mx in
-  {| p_ansi := p_ansi p; p_quiet := p_quiet p; p_verbosity := p_verbosity p;
-     p_max := m; p_step := p_step p; p_step_width := if (0 <? m)%Z then decimal_width m else 4;
-     p_bar_width := p_bar_width p; p_custom := p_custom p; p_fmt := p_fmt p; p_flc := p_flc p; p_last_len := p_last_len p;
-     p_write_count := p_write_count p; p_start := p_start p; p_last_write := p_last_write p;
-     p_min_num := p_min_num p; p_min_den := p_min_den p; p_max_ms := p_max_ms p; p_redraw_freq := p_redraw_freq p;
-     p_message := p_message p |}.
+  let m := Z.max 0 mx in set_steps p m (p_step p) (if (0 <? m)%Z then decimal_width m else 4).
 
-(* ProgressBar(io, max, min_seconds_between_redraws) at time now *)
-Definition pb_new (ansi quiet : bool) (verbosity : Z) (mx : Z) (bar_width : Z) (min_num min_den : Z)
-                  (custom : option format) (message : option str) (now : Z) : pbar :=
+(* ProgressBar(io, max, min_seconds_between_redraws) at time now, then max_seconds_between_redraws(maxs),
+   set_redraw_frequency(rf) *)
+Definition pb_new (ansi quiet section : bool) (w : nat) (f : formatter) (st : secs) (verbosity : Z) (mx : Z) (bar_width : Z)
+                  (min_num min_den maxs_num maxs_den : Z) (rf : option Z)
+                  (pchar : str) (custom : option format) (message : option str) (now : Z) : pbar :=
   set_max_steps
-    {| p_ansi := ansi; p_quiet := quiet; p_verbosity := verbosity; p_max := 0; p_step := 0; p_step_width := 4;
-       p_bar_width := bar_width; p_custom := custom; p_fmt := None; p_flc := 0; p_last_len := 0; p_write_count := 0;
-       p_start := now; p_last_write := 0; p_min_num := min_num; p_min_den := min_den; p_max_ms := 1000;
-       p_redraw_freq := if (0 <? min_num)%Z || negb ansi then None else Some 1%Z;
-       p_message := message |} mx.
+    {| p_ansi := ansi; p_quiet := quiet; p_section := section; p_w := w; p_f := f; p_secs := st;
+       p_verbosity := verbosity; p_max := 0; p_step := 0; p_step_width := 4; p_pct_n := 0; p_pct_d := 1;
+       p_bar_width := bar_width; p_pchar := pchar; p_custom := custom; p_fmt := None; p_flc := 0; p_last_len := 0; p_write_count := 0;
+       p_start := now; p_last_write := 0; p_min_num := min_num; p_min_den := min_den;
+       p_maxs_num := maxs_num; p_maxs_den := maxs_den;
+       p_redraw_freq := if (0 <? min_num)%Z || negb ansi then None
+                        else Some (match rf with Some k => Z.max k 1 | None => 1%Z end);
+       p_message := message; p_drawn := None |} mx.
 
 Definition with_fmt (p : pbar) : pbar :=
   match p_fmt p with
   | Some _ => p
   | None =>
     let f := match p_custom p with Some f => f | None => best_format (p_verbosity p) (0 <? p_max p)%Z end in
-    {| p_ansi := p_ansi p; p_quiet := p_quiet p; p_verbosity := p_verbosity p; p_max := p_max p; p_step := p_step p;
-       p_step_width := p_step_width p; p_bar_width := p_bar_width p; p_custom := p_custom p; p_fmt := Some f;
-       p_flc := count_nl (flat_map (fun x => match x with PLit s => s | _ => [] end) f);
-       p_last_len := p_last_len p; p_write_count := p_write_count p; p_start := p_start p; p_last_write := p_last_write p;
-       p_min_num := p_min_num p; p_min_den := p_min_den p; p_max_ms := p_max_ms p; p_redraw_freq := p_redraw_freq p;
-       p_message := p_message p |}
+    set_fmt p (Some f) (count_nl (flat_map (fun x => match x with PLit s => s | _ => [] end) f))
   end.
 
-(* _overwrite(message) at time now: the emitted stream (nothing reaches the stream when quiet) and the new state *)
-Definition overwrite (p : pbar) (now : Z) (message : str) : pbar * list emit :=
-  let lines := map (fun l => if Nat.ltb (length l) (p_last_len p) then l ++ sp SPACE (p_last_len p - length l) else l)
-                   (split_nl message) in
-  let pre := if p_ansi p then Cr :: (match p_flc p with O => [] | n => [Up n] end)
-             else if (0 <? p_write_count p)%Z then [Nl] else [] in
-  let es := pre ++ emits_of_text (join_nl lines) in
-  ({| p_ansi := p_ansi p; p_quiet := p_quiet p; p_verbosity := p_verbosity p; p_max := p_max p; p_step := p_step p;
-      p_step_width := p_step_width p; p_bar_width := p_bar_width p; p_custom := p_custom p; p_fmt := p_fmt p; p_flc := p_flc p;
-      p_last_len := fold_left (fun a l => Nat.max a (length l)) lines 0;
-      p_write_count := (p_write_count p + 1)%Z; p_start := p_start p; p_last_write := now;
-      p_min_num := p_min_num p; p_min_den := p_min_den p; p_max_ms := p_max_ms p; p_redraw_freq := p_redraw_freq p;
-      p_message := p_message p |},
-   if p_quiet p then [] else es).
+(* ---- the output ---- *)
+(* Output.write(text) / write_line on the bar's output: gated by quiet; decorated or tag-stripped by the formatter; on a
+   section SectionOutput.write *)
+Definition out_write (p : pbar) (text : str) (nl : bool) : res (pbar * list emit) :=
+  if p_quiet p then Ok (p, [])
+  else if p_section p then
+    do x <- (if p_ansi p then sstep_ansi (p_w p) (p_secs p) (p_f p) (SWrite 0 text nl)
+             else sstep_plain (p_secs p) (p_f p) (SWrite 0 text nl));
+    Ok (set_out p (snd (fst x)) (fst (fst x)), snd x)
+  else if p_ansi p then
+    do x <- Markup.format (p_f p) text None;
+    Ok (set_out p (fst x) (p_secs p), emits_of_ansi (snd x) ++ (if nl then [Nl] else []))
+  else
+    do x <- remove_format (p_f p) text;
+    Ok (set_out p (fst x) (p_secs p), emits_of_text (snd x) ++ (if nl then [Nl] else [])).
+(* SectionOutput.clear(n) on the bar's section *)
+Definition out_clear (p : pbar) (n : nat) : res (pbar * list emit) :=
+  if p_quiet p then Ok (p, [])
+  else do x <- sstep_ansi (p_w p) (p_secs p) (p_f p) (SClear 0 (Some n));
+       Ok (set_out p (snd (fst x)) (fst (fst x)), snd x).
 
-Definition display (p : pbar) (now : Z) : pbar * list emit :=
-  if p_quiet p then (p, [])
+(* the lines of the message, each padded with blanks up to the longest line of the previous frame - by its VISIBLE length *)
+Definition pad_to (last : nat) (line vis : str) : str :=
+  if Nat.ltb (length vis) last then line ++ sp SPACE (last - length vis) else line.
+Fixpoint pad_lines (last : nat) (f : formatter) (ls : list str) : res (formatter * list str) :=
+  match ls with
+  | [] => Ok (f, [])
+  | l :: r => do x <- remove_format f l; do y <- pad_lines last (fst x) r; Ok (fst y, pad_to last l (snd x) :: snd y)
+  end.
+(* the longest visible line *)
+Fixpoint max_vis (f : formatter) (ls : list str) (acc : nat) : res (formatter * nat) :=
+  match ls with
+  | [] => Ok (f, acc)
+  | l :: r => do x <- remove_format f l; max_vis (fst x) r (Nat.max acc (length (snd x)))
+  end.
+
+(* _overwrite(message) at time now: the emitted stream and the new state *)
+Definition overwrite (p : pbar) (now : Z) (message : str) : res (pbar * list emit) :=
+  do pl <- pad_lines (p_last_len p) (p_f p) (lines_of message);
+  let p0 := set_out p (fst pl) (p_secs p) in
+  let lines := snd pl in
+  do pre <- (if p_ansi p0 then
+               if p_section p0 then out_clear p0 (length lines / p_w p0 + p_flc p0 + 1)
+               else Ok (p0, if p_quiet p0 then [] else Cr :: (match p_flc p0 with O => [] | n => [Up n] end))
+             else Ok (p0, if p_quiet p0 then [] else if (0 <? p_write_count p0)%Z then [Nl] else []));
+  do wr <- out_write (fst pre) (join_with NL lines) false;
+  do mv <- max_vis (p_f (fst wr)) lines 0;
+  Ok (set_written (set_out (fst wr) (fst mv) (p_secs (fst wr))) (snd mv) now, snd pre ++ snd wr).
+
+Definition frame_of (p : pbar) (now : Z) : res (formatter * str) :=
+  render_frame p now (p_f p) (match p_fmt p with Some f => f | None => [] end).
+Definition display (p : pbar) (now : Z) : res (pbar * list emit) :=
+  if p_quiet p then Ok (p, [])
   else let p1 := with_fmt p in
-       overwrite p1 now (render_frame p1 now (match p_fmt p1 with Some f => f | None => [] end)).
-
-Definition with_progress (p : pbar) (mx step : Z) : pbar :=
-  {| p_ansi := p_ansi p; p_quiet := p_quiet p; p_verbosity := p_verbosity p; p_max := mx; p_step := step;
-     p_step_width := p_step_width p; p_bar_width := p_bar_width p; p_custom := p_custom p; p_fmt := p_fmt p; p_flc := p_flc p;
-     p_last_len := p_last_len p; p_write_count := p_write_count p; p_start := p_start p; p_last_write := p_last_write p;
-     p_min_num := p_min_num p; p_min_den := p_min_den p; p_max_ms := p_max_ms p; p_redraw_freq := p_redraw_freq p;
-     p_message := p_message p |}.
+       do fr <- frame_of p1 now; do x <- overwrite (set_out p1 (fst fr) (p_secs p1)) now (snd fr);
+       Ok (set_drawn (fst x) (Some (p_step p, p_max p)), snd x).
 
 (* int(step / redraw_freq): exact *)
 Definition period (p : pbar) (mx step : Z) : Z :=
@@ -175,57 +309,123 @@ Definition period (p : pbar) (mx step : Z) : Z :=
   | None => (step * 10 / (if (0 <? mx)%Z then mx else 10))%Z
   end.
 
-Definition set_progress (p : pbar) (now : Z) (step0 : Z) : pbar * list emit :=
+Definition set_progress (p : pbar) (now : Z) (step0 : Z) : res (pbar * list emit) :=
   let mx := if (0 <? p_max p)%Z && (p_max p <? step0)%Z then step0 else p_max p in
   let step := if (0 <? p_max p)%Z && (p_max p <? step0)%Z then step0 else if (step0 <? 0)%Z then 0%Z else step0 in
   let prev := period p mx (p_step p) in
   let curr := period p mx step in
-  let p1 := with_progress p mx step in
+  let p1 := if (0 <? mx)%Z then set_pct (with_progress p mx step) step mx else set_pct (with_progress p mx step) 0 1 in
   let interval := (now - p_last_write p)%Z in
   if (step =? mx)%Z then display p1 now
-  else if (interval * p_min_den p <? p_min_num p * 1000)%Z then (p1, [])
-  else if negb (prev =? curr)%Z || (p_max_ms p <=? interval)%Z then display p1 now
-  else (p1, []).
+  else if (interval * p_min_den p <? p_min_num p * 1000)%Z then Ok (p1, [])
+  else if negb (prev =? curr)%Z || (p_maxs_num p * 1000 <=? interval * p_maxs_den p)%Z then display p1 now
+  else Ok (p1, []).
 
-Inductive pop := OStart (mx : option Z) | OAdvance (k : Z) | OSet (k : Z) | ODisplay | OClear | OFinish.
+Inductive pop :=
+| OStart (mx : option Z) | OAdvance (k : Z) | OSet (k : Z) | ODisplay | OClear | OFinish
+| OMessage (m : str)             (* set_message *)
+| OBelow (text : str).           (* write_line on the section below the bar's (section outputs only) *)
 
-Definition pstep (p : pbar) (now : Z) (o : pop) : pbar * list emit :=
+Definition pstep (p : pbar) (now : Z) (o : pop) : res (pbar * list emit) :=
   match o with
   | OStart mx =>
-    let p0 := with_progress p (p_max p) 0 in
-    let p1 := {| p_ansi := p_ansi p0; p_quiet := p_quiet p0; p_verbosity := p_verbosity p0; p_max := p_max p0; p_step := 0;
-                 p_step_width := p_step_width p0; p_bar_width := p_bar_width p0; p_custom := p_custom p0; p_fmt := p_fmt p0;
-                 p_flc := p_flc p0; p_last_len := p_last_len p0; p_write_count := p_write_count p0; p_start := now;
-                 p_last_write := p_last_write p0; p_min_num := p_min_num p0; p_min_den := p_min_den p0; p_max_ms := p_max_ms p0;
-                 p_redraw_freq := p_redraw_freq p0; p_message := p_message p0 |} in
+    let p1 := set_start (set_pct (with_progress p (p_max p) 0) 0 1) now in
     (* with a maximum given, the format is determined again (self._format = None) *)
-    let reset q := {| p_ansi := p_ansi q; p_quiet := p_quiet q; p_verbosity := p_verbosity q; p_max := p_max q; p_step := p_step q;
-                      p_step_width := p_step_width q; p_bar_width := p_bar_width q; p_custom := p_custom q; p_fmt := None;
-                      p_flc := p_flc q; p_last_len := p_last_len q; p_write_count := p_write_count q; p_start := p_start q;
-                      p_last_write := p_last_write q; p_min_num := p_min_num q; p_min_den := p_min_den q; p_max_ms := p_max_ms q;
-                      p_redraw_freq := p_redraw_freq q; p_message := p_message q |} in
-    display (match mx with Some m => reset (set_max_steps p1 m) | None => p1 end) now
+    display (match mx with Some m => set_fmt (set_max_steps p1 m) None (p_flc p1) | None => p1 end) now
   | OAdvance k => set_progress p now (p_step p + k)
   | OSet k => set_progress p now k
   | ODisplay => display p now
   | OClear =>
-    if negb (p_ansi p) then (p, [])
+    if negb (p_ansi p) then Ok (p, [])
     else let p1 := with_fmt p in overwrite p1 now (repeat LF (p_flc p1))
   | OFinish =>
     let p1 := if (p_max p =? 0)%Z then with_progress p (p_step p) (p_step p) else p in
-    if (p_step p1 =? p_max p1)%Z && negb (p_ansi p1) then (p1, [])
+    (* on an output that is not overwritten the frame of the maximum is not written twice *)
+    if (p_step p1 =? p_max p1)%Z && negb (p_ansi p1)
+       && match p_drawn p1 with Some (s, m) => (s =? p_step p1)%Z && (m =? p_max p1)%Z | None => false end then Ok (p1, [])
     else set_progress p1 now (p_max p1)
+  | OMessage m => Ok (set_message p (Some m), [])
+  | OBelow text =>
+    if p_section p then
+      do x <- (if p_ansi p then sstep_ansi (p_w p) (p_secs p) (p_f p) (SWrite 1 text true)
+               else sstep_plain (p_secs p) (p_f p) (SWrite 1 text true));
+      Ok (set_out p (snd (fst x)) (fst (fst x)), snd x)
+    else Ok (p, [])
   end.
 
-(* a history: the clock advance before each call *)
-Fixpoint prun (p : pbar) (now : Z) (ops : list (Z * pop)) : list (Z * list emit) * pbar :=
+(* a history: the clock advance before each call; it ends at the first call that raises *)
+Fixpoint prun (p : pbar) (now : Z) (ops : list (Z * pop)) : res (list (Z * list emit) * pbar) :=
   match ops with
-  | [] => ([], p)
+  | [] => Ok ([], p)
   | (dt, o) :: r =>
     let now' := (now + dt)%Z in
-    let '(p1, es) := pstep p now' o in
-    let '(rest, pf) := prun p1 now' r in ((now', es) :: rest, pf)
+    do a <- pstep p now' o;
+    do b <- prun (fst a) now' r;
+    Ok ((now', snd a) :: fst b, snd b)
   end.
+
+(* the class the frame theorems speak about: every message is one line of good markup, every text written to the
+   section below is good markup (Model/Section.v good_lineb / good_textb) *)
+Definition good_pop (sty : styles) (o : pop) : bool :=
+  match o with OMessage m => good_lineb sty m | OBelow t => good_textb sty t | _ => true end.
+
+(* ---- the states whose frame a call renders; the class of the frame theorems as checks that can be run ---- *)
+(* set_progress: maximum and step after the update, the state displayed *)
+Local Open Scope Z_scope.
+Definition sp_max (p : pbar) (k : Z) : Z := if (0 <? p_max p) && (p_max p <? k) then k else p_max p.
+Definition sp_step (p : pbar) (k : Z) : Z := if (0 <? p_max p) && (p_max p <? k) then k else if k <? 0 then 0 else k.
+Definition sp_state (p : pbar) (k : Z) : pbar :=
+  if 0 <? sp_max p k then set_pct (with_progress p (sp_max p k) (sp_step p k)) (sp_step p k) (sp_max p k)
+  else set_pct (with_progress p (sp_max p k) (sp_step p k)) 0 1.
+(* finish: a bar without maximum takes its step as the maximum *)
+Definition finish_state (p : pbar) : pbar := if p_max p =? 0 then with_progress p (p_step p) (p_step p) else p.
+Local Close Scope Z_scope.
+(* start *)
+Definition start_state (p : pbar) (now : Z) (mx : option Z) : pbar :=
+  let p1 := set_start (set_pct (with_progress p (p_max p) 0) 0 1) now in
+  match mx with Some m => set_fmt (set_max_steps p1 m) None (p_flc p1) | None => p1 end.
+(* the state whose frame a call displays, when it displays one *)
+Definition draw_state (p : pbar) (now : Z) (o : pop) : option pbar :=
+  match o with
+  | OStart mx => Some (start_state p now mx)
+  | OAdvance k => Some (sp_state p (p_step p + k))
+  | OSet k => Some (sp_state p k)
+  | ODisplay => Some p
+  | OFinish => Some (sp_state (finish_state p) (p_max (finish_state p)))
+  | _ => None
+  end.
+
+Definition lits (f : format) : str := flat_map (fun x => match x with PLit s => s | _ => [] end) f.
+(* the visible text of a line of markup (the undecorated formatter, empty style stack) *)
+Definition vis_of (sty : styles) (l : str) : str := match colorize sty false [] l with Ok (_, v) => v | Err _ => [] end.
+(* a line that does not end inside a tag: blanks may be appended to it *)
+Definition closedb (l : str) : bool := match l_cand (fold_left lex_step l lex_init) with CText => true | _ => false end.
+Definition oklb (sty : styles) (l : str) : bool := good_lineb sty l && closedb l.
+(* an ANSI line: the frame a state renders is one line of good markup that fits the width *)
+Definition frame_fitsb (w : nat) (sty : styles) (q : pbar) (now : Z) : bool :=
+  match frame_of (with_fmt q) now with
+  | Ok (_, fr) => oklb sty fr && Nat.leb (length (vis_of sty fr)) w
+  | Err _ => true
+  end.
+Definition step_fitsb (w : nat) (sty : styles) (p : pbar) (now : Z) (o : pop) : bool :=
+  match draw_state p now o with Some q => frame_fitsb w sty q now | None => true end.
+Fixpoint run_fitsb (w : nat) (sty : styles) (p : pbar) (now : Z) (ops : list (Z * pop)) : bool :=
+  match ops with
+  | [] => true
+  | (dt, o) :: r => step_fitsb w sty p (now + dt) o &&
+                    match pstep p (now + dt) o with Ok (p', _) => run_fitsb w sty p' (now + dt) r | Err _ => true end
+  end.
+(* a section: every line of the frame is good markup *)
+Definition frame_lines_okb (sty : styles) (q : pbar) (now : Z) : bool :=
+  match frame_of (with_fmt q) now with Ok (_, fr) => forallb (oklb sty) (lines_of fr) | Err _ => true end.
+Fixpoint sec_run_okb (sty : styles) (p : pbar) (now : Z) (ops : list (Z * pop)) : bool :=
+  match ops with
+  | [] => true
+  | (dt, o) :: r => match draw_state p (now + dt) o with Some q => frame_lines_okb sty q (now + dt) | None => true end &&
+                    match pstep p (now + dt) o with Ok (p', _) => sec_run_okb sty p' (now + dt) r | Err _ => true end
+  end.
+Definition one_lineb (custom : option format) : bool :=
+  match custom with Some f => Nat.eqb (count_nl (lits f)) 0 | None => true end.
 
 (* ---- wire ---- *)
 Definition dec_spec (s : sexp) : option spec :=
@@ -242,6 +442,7 @@ Definition dec_piece (s : sexp) : option piece :=
   | L [A 5%Z; x] => option_map PElapsed (dec_spec x)
   | L [A 6%Z; x] => option_map PEstimated (dec_spec x)
   | L [A 7%Z] => Some PMessage
+  | L [A 8%Z; x] => option_map PRemaining (dec_spec x)
   | _ => None end.
 Definition dec_pop (s : sexp) : option (Z * pop) :=
   match s with
@@ -251,18 +452,52 @@ Definition dec_pop (s : sexp) : option (Z * pop) :=
   | L [A dt; L [A 3%Z]] => Some (dt, ODisplay)
   | L [A dt; L [A 4%Z]] => Some (dt, OClear)
   | L [A dt; L [A 5%Z]] => Some (dt, OFinish)
+  | L [A dt; L [A 6%Z; m]] => option_map (fun m => (dt, OMessage m)) (dStr m)
+  | L [A dt; L [A 7%Z; t]] => option_map (fun t => (dt, OBelow t)) (dStr t)
   | _ => None end.
+(* request: ansi? quiet? section? verbosity max bar-width min (num den) max-interval (num den) redraw-frequency?
+   custom-format? message? t0 ops width style-set below? progress-character.  On a section output two sections are created first and
+   `below` (when given) is written to the second one.
+   answer: the bytes of that set-up, the trace (clock value and emits of every call), step, max and the progress
+   fraction (reduced), the terminal after
+   everything, every section's content lines and row count, whether the messages are good markup, whether the premises
+   of the theorems about whole histories hold (ANSI: run_fitsb and a one-line format; section: sec_run_okb) *)
 Definition run_C16 (s : sexp) : sexp :=
   match s with
-  | L [ansi; quiet; A verb; A mx; A bw; A mnum; A mden; custom; msg; A t0; ops; A w] =>
-    match dB ansi, dB quiet, dOpt (dList dec_piece) custom, dOpt dStr msg, dList dec_pop ops with
-    | Some ansi, Some quiet, Some custom, Some msg, Some ops =>
-      let p := pb_new ansi quiet verb mx bw mnum mden custom msg t0 in
-      let '(trace, pf) := prun p t0 ops in
-      L [sList (fun x => L [A (fst x); sList enc_emit (snd x)]) trace;
-         L [A (p_step pf); A (p_max pf)];
-         enc_term (feed (Z.to_nat w) term_init (flat_map snd trace))]
-    | _, _, _, _, _ => sBad
+  | L [ansi; quiet; section; A verb; A mx; A bw; A mnum; A mden; A xnum; A xden; rf; custom; msg; A t0; ops; A w; set; below; pchar] =>
+    match dB ansi, dB quiet, dB section, dOpt dZ rf, dOpt (dList dec_piece) custom, dOpt dStr msg, dList dec_pop ops,
+          dList OutputM.dec_cstyle set, dOpt dStr below, dStr pchar with
+    | Some ansi, Some quiet, Some section, Some rf, Some custom, Some msg, Some ops, Some set, Some below, Some pchar =>
+      let w := Z.to_nat w in
+      match new_formatter (if ansi then FAnsi true else FPlain) set with
+      | Ok f0 =>
+        let setup := if section then [SCreate; SCreate] ++ (match below with Some t => [SWrite 1 t true] | None => [] end) else [] in
+        match srun ansi w [] f0 setup with
+        | Ok (st0, f1, es0) =>
+          let p := pb_new ansi quiet section w f1 st0 verb mx bw mnum mden xnum xden rf pchar custom msg t0 in
+          match prun p t0 ops with
+          | Ok (trace, pf) =>
+            L [A 0%Z; sList enc_emit es0;
+               sList (fun x => L [A (fst x); sList enc_emit (snd x)]) trace;
+               (let g := Z.gcd (p_pct_n pf) (p_pct_d pf) in
+                L [A (p_step pf); A (p_max pf); A (p_pct_n pf / g); A (p_pct_d pf / g)]);
+               enc_term (feed w term_init (es0 ++ flat_map snd trace));
+               sList (fun x => L [sList sStr (sc_content x); A (Z.of_nat (sc_lines x))]) (p_secs pf);
+               sB (forallb (good_pop (f_styles f0)) (map snd ops)
+                   && match msg with Some m => good_lineb (f_styles f0) m | None => true end
+                   && match below with Some t => good_textb (f_styles f0) t | None => true end
+                   && good_lineb (f_styles f0) pchar);
+               (* the premises of the frame theorems about whole histories (Props/C16.v) hold for this case *)
+               sB (if quiet || negb ansi then true
+                   else if section then sec_run_okb (f_styles f0) p t0 ops
+                   else one_lineb custom && run_fitsb w (f_styles f0) p t0 ops)]
+          | Err k => sErr k
+          end
+        | Err k => sErr k
+        end
+      | Err k => sErr k
+      end
+    | _, _, _, _, _, _, _, _, _, _ => sBad
     end
   | _ => sBad
   end.
